@@ -12,6 +12,7 @@ d.declare_io(e)
 d.declare_licensing(e)
 d.declare_cli(e)
 d.declare_paths(e)
+d.declare_project(e); d.declare_toml(e)
 allv=[]
 for fn in fns:
     t=time.time()
